@@ -5,7 +5,7 @@ CONSTANTS
   MaxMsgs = {130}
   CtlLens = {0, 125}
   PieceKinds = {"zero", "half"}
-  Viols = {"rsv1", "rsv2", "rsv3", "badop", "fragctl", "bigctl", "contnostart", "datainfrag"}
+  Viols = {"rsv1", "rsv2", "rsv3", "badop", "badopfrag", "fragctl", "bigctl", "contnostart", "datainfrag"}
   BadOps = {3, 4, 5, 6, 7, 11, 12, 13, 14, 15}
   MaxAfter = 1
   MaxDelivered = 2
